@@ -141,7 +141,7 @@ def run(ctx):
         return NotImplemented
 
     rev_param = [a.arg for a in fe.args.args if a.arg != "self"][0]
-    idents = ["A U Thor <a@example.com>", "Doe, John <j@example.com>", "Doe, John, Jr. <j@example.com>", 'J. R. "Bob" Dobbs <bob@example.com>', "Zo\xeb M\xfcller <z@example.com>"]
+    idents = ["A U Thor <a@example.com>", "Doe, John <j@example.com>", "Doe, John, Jr. <j@example.com>", 'J. R. "Bob" Dobbs <bob@example.com>', "Zo\xeb M\xfcller <z@example.com>", "Joe Example  <joe@example.com>", "Joe  Q.  Example <joe@example.com>", " Leading Blank <l@example.com>", "Trailing Tab\t <t@example.com>", " <nameless@example.com>", "No Mail <>"]
     for target in ("commit.author", "commit.committer"):
         sl = _slice(target)
         if sl is None:
@@ -288,6 +288,7 @@ def run(ctx):
 
 
 MUTANTS = [
+    Mutant("identity helper trims every trailing blank of the name", MP, '        if username.endswith(b" "):\n            username = username[:-1]\n', '        username = username.rstrip()\n', expect="identity-verbatim"),
     Mutant("committer timezone set after the author falls back to it", MP, "        commit.commit_timezone = rev.timezone\n        commit._author_timezone_neg_utc = \"author-timezone-neg-utc\" in rev.properties\n        if \"author-timezone\" in rev.properties:\n            commit.author_timezone = int(rev.properties[\"author-timezone\"])\n        else:\n            commit.author_timezone = commit.commit_timezone\n", "        commit._author_timezone_neg_utc = \"author-timezone-neg-utc\" in rev.properties\n        if \"author-timezone\" in rev.properties:\n            commit.author_timezone = int(rev.properties[\"author-timezone\"])\n        else:\n            commit.author_timezone = commit.commit_timezone\n        commit.commit_timezone = rev.timezone\n", expect="field-set-before-read", where="commit.commit_timezone"),
     Mutant("first author cut at any comma", MP, "        if \",\" in first_author and first_author.count(\">\") > 1:\n            first_author = first_author.split(\",\")[0]\n", "        if \",\" in first_author:\n            first_author = first_author.split(\",\")[0].strip()\n", expect="identity-verbatim"),
     Mutant("committer always encoded as utf-8", MP, "        commit.committer = fix_person_identifier(rev.committer.encode(encoding))\n", "        commit.committer = fix_person_identifier(rev.committer.encode(\"utf-8\"))\n", expect="identity-verbatim"),
